@@ -1,4 +1,5 @@
 import LyModel.Text.XmlText
+import LyModel.Generated.LexConsts
 /-!
 # `lyxml_parse_value` with its output buffer made explicit
 
@@ -10,8 +11,8 @@ import LyModel.Text.XmlText
 namespace LyModel.Lex.XmlBuf
 open LyModel LyModel.Utf8 LyModel.XmlText
 
-def BUFSIZE : Nat := 24
-def BUFSIZE_STEP : Nat := 128
+def BUFSIZE : Nat := Generated.LYXML_VALUE_BUFSIZE             -- read off xml.c by the translator (24)
+def BUFSIZE_STEP : Nat := Generated.LYXML_VALUE_BUFSIZE_STEP   -- (128)
 
 structure St where
   /-- `buf != NULL` -/
